@@ -56,8 +56,8 @@ def gen_cases(ctx):
                                                                            {"name": "v", "kind": "float", "vals": [1.0, 2.0, 3.0, 4.0]}]}})
     # large groups (well beyond any small-size special case of a kernel) with ties for the most common value whose first
     # occurrence is not the smallest value: the shorthand helper is a statistic of the group's rows IN THEIR ORIGINAL ORDER
-    for _ in range(8 if ctx.tier == "quick" else 100):
-        nrow = rng.choice([140, 200, 260])
+    for rep in range(3 if ctx.tier == "quick" else 40):
+        nrow = [140, 200, 260][rep % 3]
         vals = [None] * nrow
         for gi in (0, 1):
             pos = [i for i in range(nrow) if i % 2 == gi]
@@ -69,7 +69,14 @@ def gen_cases(ctx):
             for p_, v_ in zip(pos, seq):
                 vals[p_] = v_
         spec = {"n": nrow, "cols": [{"name": "a", "kind": "int", "vals": [i % 2 for i in range(nrow)]}, {"name": "v", "kind": "float", "vals": vals}]}
-        cases.append({"op": "shorthand", "frame": spec, "by": ["a"], "helper": rng.choice(["mode", "mode", "first", "nth-2", "last"])})
+        for h in ("mode", "first", "nth-2", "last"):          # (every order-dependent helper on every such frame: no draw decides)
+            cases.append({"op": "shorthand", "frame": spec, "by": ["a"], "helper": h})
+    # groups that hold SEVERAL missing values (and several equal values) in the aggregated column, for every helper that counts
+    # or picks among them: the shorthand and the lambda agree on what a missing value is
+    for vals in ([1.0, "nan", "nan", 2.0, "nan", 2.0, 1.0, "nan"], ["nan", "nan", "nan", 3.0, 3.0, "nan", "nan", 1.0]):
+        spec = {"n": 8, "cols": [{"name": "a", "kind": "int", "vals": [0, 0, 0, 0, 1, 1, 1, 1]}, {"name": "v", "kind": "float", "vals": vals}]}
+        for h in ("count_unique", "count_unique_drop", "first", "last", "first_drop", "last_drop", "nth-2", "sum", "mean", "min", "max", "median", "sum_keep", "mean_keep"):
+            cases.append({"op": "shorthand", "frame": spec, "by": ["a"], "helper": h})
     n = 600 if ctx.tier == "quick" else 15000
     for _ in range(n):
         cases.append(gen_case(rng, ctx.tier))
